@@ -339,6 +339,36 @@ def check_cases(ctx, cases):
             h_after = "unhashable"
         if h_after != h_first or (o == twin) != eq_first:
             ctx.fail(case, "calling read-only methods (dictionary form, repr, swhid, check, ...) changes the hash or the equality of the object", "changed-by-observation:" + name)
+        # what an object hands out is the caller's to change: mutating every container inside a dictionary form
+        # (top level and nested) changes neither the object nor the dictionary form of any equal object
+        if hasattr(o, "to_dict"):
+            try:
+                d_first = o.to_dict()
+                d_keep = copy.deepcopy(d_first)
+                def fresh(v, in_meta=False):
+                    # containers that to_dict() builds for the caller.  (A list stored as a value inside free-form
+                    # metadata is handed out as it is, like by obj.metadata[k] itself: changing what one obtained
+                    # from an object is not among the ways of changing it that the property lists.)
+                    if isinstance(v, dict):
+                        yield v
+                        for k_, x_ in list(v.items()):
+                            yield from fresh(x_, in_meta or k_ == "metadata")
+                    elif isinstance(v, list) and not in_meta:
+                        yield v
+                        for x_ in v:
+                            yield from fresh(x_, in_meta)
+                    elif isinstance(v, tuple):
+                        for x_ in v:
+                            yield from fresh(x_, in_meta)
+
+                for c in list(fresh(d_first)):
+                    poke(c)
+                d_again = o.to_dict()
+                d_twin = twin.to_dict()
+                if repr(d_again) != repr(d_keep) or repr(d_twin) != repr(d_keep):
+                    ctx.fail(case, "mutating the containers inside a dictionary form handed out by to_dict() changes the dictionary form handed out next (by the object or by an equal object)", "dict-form-shared:" + name)
+            except (ValueError, TypeError, AttributeError):
+                pass
         before = observe(o)
         # two objects built from the same arguments are equal, with equal hashes
         if not (o == twin) or (before["hash"] != "unhashable" and before["hash"] != hash(twin)):
